@@ -185,7 +185,7 @@ def deblend_sources(data, segment_img, npixels, *, labels=None, nlevels=32,
         nproc = cpu_count()  # pragma: no cover
 
     deblend_label_map = {}
-    max_label = segment_img.max_label
+    max_label = int(segment_img.max_label)
     if nproc == 1:
         if progress_bar:  # pragma: no cover
             desc = 'Deblending'
@@ -213,6 +213,8 @@ def deblend_sources(data, segment_img, npixels, *, labels=None, nlevels=32,
             if source_deblended is not None:
                 source_mask = source_deblended > 0
                 new_segm = source_deblended[source_mask]  # min label = 1
+                segm_deblended = _fit_label_dtype(
+                    segm_deblended, max_label + new_segm.max())
                 segm_deblended[source_slice][source_mask] = (
                     new_segm + max_label)
                 new_labels = _get_labels(new_segm) + max_label
@@ -280,6 +282,8 @@ def deblend_sources(data, segment_img, npixels, *, labels=None, nlevels=32,
             if source_deblended is not None:
                 source_mask = source_deblended > 0
                 new_segm = source_deblended[source_mask]  # min label = 1
+                segm_deblended = _fit_label_dtype(
+                    segm_deblended, max_label + new_segm.max())
                 segm_deblended[source_slice][source_mask] = (
                     new_segm + max_label)
                 new_labels = _get_labels(new_segm) + max_label
@@ -325,6 +329,18 @@ def deblend_sources(data, segment_img, npixels, *, labels=None, nlevels=32,
         segm_img.info = {'warnings': warning_info}
 
     return segm_img
+
+
+def _fit_label_dtype(segm, max_value):
+    """
+    Return ``segm``, converted to a wider integer dtype if its dtype
+    cannot hold the label ``max_value`` (new labels must never wrap
+    around).
+    """
+    if max_value > np.iinfo(segm.dtype).max:
+        needed = np.min_scalar_type(int(max_value))
+        segm = segm.astype(np.promote_types(segm.dtype, needed))
+    return segm
 
 
 def _deblend_source(data, segment_data, label, deblend_params):
